@@ -14,14 +14,14 @@ import (
 
 // KeySet is the raw key material of an IKE SA (reference-side view).
 type KeySet struct {
-	Suite ref.Suite  `json:"-"`
-	SuiteIdx int     `json:"suite"`
-	PRFIdx   int     `json:"prf"`
-	Pattern  int     `json:"pattern"`
+	Suite    ref.Suite   `json:"-"`
+	SuiteIdx int         `json:"suite"`
+	PRFIdx   int         `json:"prf"`
+	Pattern  int         `json:"pattern"`
 	K        ref.IKEKeys `json:"-"`
 }
 
-func EncrName(keyLen int) string  { return fmt.Sprintf("ENCR_AES_CBC_%d", keyLen*8) }
+func EncrName(keyLen int) string { return fmt.Sprintf("ENCR_AES_CBC_%d", keyLen*8) }
 func IntegName(a ref.IntegAlg) string {
 	switch a.ID {
 	case 1:
